@@ -125,7 +125,7 @@ CLAIMED = {
        "string operators their kind; indexing yields a member of the element type. STAGE 2 (Thm/C01Eval), the evaluator-level "
        "statement for the FIRST-ORDER EXPRESSION FRAGMENT: a model of the checker (Model/Check: the admissibility tests and "
        "return_type of literals, variables, array / tuple literals, prefix ! and -, && / ||, all 17 scalar binary operators, "
-       "indexing and tuple access on non-union operands, if / else, `if x: T = e` with its else branch, `match` with type, value "
+       "indexing, slicing and tuple access on non-union operands, `[v; n]`, if / else, `if x: T = e` with its else branch, `match` with type, value "
        "and default arms and the coverage test, blocks, `:=` with shadowing) and the theorem eval_sound / "
        "program_sound: whenever the model types an expression or statement list, EVERY value the reference evaluator produces for "
        "it - any fuel, any store, any environment respecting the static types - has a run-time TAG below that type (Type::matches: "
@@ -134,7 +134,7 @@ CLAIMED = {
        "above their elements' tags; unions through concat's upper-bound / least laws, transitivity of matches and matches_sound). "
        "The checker model is tied to the implementation by its own stream: 1500 generated fragment programs per quick run over "
        "16 opaque free variables (`p := *(mut T v)`, so nothing folds), half of them ill-typed, a third with match / if-set - same "
-       "verdict and == static type. Outside the fragment (functions, calls, cells, loops, structs, slices, iterators) the "
+       "verdict and == static type. Outside the fragment (functions, calls, cells, loops, structs, iterators) the "
        "evaluator-level statement is NOT proved: for the "
        "running code it is decided by the in-crate monitor (feature `verif`), which judges the result of every executed "
        "instruction (~140k per quick run) against that instruction's own return_type() by tag and by contents, on generated "
@@ -149,7 +149,7 @@ CLAIMED = {
        "break / continue / return never escape a call, loops never let break / continue out; the error enumeration equals the "
        "variants of ExecError in the source. STAGE 2 (Thm/C02Eval), PROGRESS FOR THE FIRST-ORDER FRAGMENT: for every expression / "
        "statement list the checker model (Model/Check, tied to the implementation by C01's fragment-types stream) types - "
-       "literals, variables, arrays, tuples, prefix and all scalar binary operators, && / ||, index, tuple access, if / else, "
+       "literals, variables, arrays, tuples, prefix and all scalar binary operators, && / ||, index, slices, `[v; n]`, tuple access, if / else, "
        "`if x: T = e`, match, blocks, `:=` - the reference evaluator never reaches `wrong`, whatever the fuel, the store and the "
        "type-respecting environment (eval_not_wrong / program_not_wrong: mutual induction on fuel, using the evaluator-level "
        "soundness theorem for the operands' kinds and, for match, coverage_sound: an accepted match has an arm whose run-time test "
